@@ -1018,6 +1018,16 @@ class Processor:
                 data, yaml_path, segment_index, parent=parent,
                 parentref=parentref, translated_path=translated_path,
                 ancestry=ancestry)
+        elif segment_type in (
+                PathSegmentTypes.COLLECTOR,
+                PathSegmentTypes.KEYWORD_SEARCH,
+                PathSegmentTypes.SEARCH):
+            # The parser lets stray text and closing marks stand next to --
+            # or in place of -- such an expression; there is nothing to
+            # evaluate.
+            raise YAMLPathException(
+                "Malformed {} segment".format(segment_type),
+                str(yaml_path), str(unesc_attrs))
         else:
             raise NotImplementedError
 
